@@ -20,7 +20,7 @@ ASSUMPTIONS = [
     "`[a, b]` and `(a, b)` targets are identified (the bytecode cannot tell them apart)",
     "static leg: many-to-one block/item matching, private-name mangling applied, dead code may drop blocks",
 ]
-MIN_NONTRIVIAL = {"quick": 1500, "thorough": 20000}
+MIN_NONTRIVIAL = {"quick": 1000, "thorough": 15000}
 REQUIRED_COUNTERS = {"ctx_checked": {"quick": 10000, "thorough": 200000},
                      "target_supported_rendered": {"quick": 2000, "thorough": 30000},
                      "target_unsupported": {"quick": 50, "thorough": 500},
